@@ -160,6 +160,10 @@ func netlinkCasesCmd(args []string) int {
 						pidIn = rng.Uint32() | 1
 					}
 					msg := syscall.NetlinkMessage{Header: syscall.NlMsghdr{Type: uint16(t), Flags: uint16(fl), Pid: pidIn}, Data: payload}
+					if rng.Intn(4) == 0 {
+						// a header that was used before (a template, a copy of a received message): Send numbers it anew
+						msg.Header.Seq = []uint32{1, 2, 3, rng.Uint32() | 1}[rng.Intn(4)]
+					}
 					seq, err := c.Send(msg)
 					rec := map[string]interface{}{"k": "send", "g": 0, "type": t, "flags": fl, "pid_in": limbs(pidIn),
 						"payload": bytesOf(payload), "ret": "ok", "ret_seq": limbs(seq), "port": limbs(port)}
